@@ -6,16 +6,17 @@ PROPS = {}
 
 # stated bounds of the replay enumerators (used as bounded stand-in / bounded cross-check; never counted as proved)
 REPLAY_BOUNDS = {
-    'bdd': 'straight-line programs of RobddBuilder operations over 3 variables: all binary ops on all pairs of literals followed by cond/exists/neg/compose/semhash, x all 6 variable orders x both cache kinds (7776 programs), plus 3000 seeded random programs of 7-16 operations incl. condition_model on 0-2 pairs and and_lst/or_lst of 0-3 diagrams, plus new_var on 7 orders of 1-3 variables x 2 polarities; truth tables by walking the nodes',
+    'bdd': 'straight-line programs of RobddBuilder operations over 3 variables: all binary ops on all pairs of literals followed by cond/exists/neg/compose/semhash, x all 6 variable orders x both cache kinds (7776 programs), plus 3000 seeded random programs of 7-16 operations incl. condition_model on 0-2 pairs and and_lst/or_lst of 0-3 diagrams, plus new_var on 7 orders of 1-3 variables x 2 polarities; truth tables by walking the nodes; smooth over all variables: unsmoothed_wmc in FiniteField<1000000007> with 3 weight vectors (unit, non-normalised, with a zero) = explicit weighted sum over models',
     'table': 'BackedRobinhoodTable with capacity 4 and 8: every sequence of <= 4 (cap 4) / <= 3 (cap 8) insertions with hashes in 0..2*cap followed by re-requesting each element, plus 200 seeded random sequences of 12 insertions',
     'lru': 'Lru<u32,u32> with initial capacity 2 or 4: 3000 seeded random insert/get sequences (up to 64 operations, up to 15 keys, colliding hashes, frequent overwrites, final read-back)',
     'ff': 'FiniteField over all 7 exported primes: 12 residues (0,1,2,3,P/2,P/2+1,P-2,P-1 and 4 seeded random) in all pairs (x3 third operands for the ternary laws), 9 operations/laws',
     'lattice': 'RealSemiring on a 9-value grid (signed zeros, infinities), ExpectedUtility on an 8-pair grid incl. incomparable pairs, all triples; Boolean semiring exhaustively; RationalSemiring on the naturals 0..4 built from one()/zero() (all triples)',
-    'dnnf': 'top-down compilation + conditioning: 6 CNFs over 3 variables x 6 orders x {diagram, negation} x 3 labels x 2 values, plus 400 seeded random CNFs over 4 variables',
+    'dnnf': 'top-down compilation + conditioning with BOTH node stores (StandardDecisionNNFBuilder, SemanticDecisionNNFBuilder<U64_LARGEST>): 11 CNFs over 3 variables (incl. unsatisfiable by propagation / by search, an empty clause, tautological and repeated literals) x 6 orders x {diagram, negation} x 3 labels x 2 values, plus ~300 seeded random CNFs over 4 variables; checks: models = CNF models, false constant <=> unsatisfiable, no path decides a variable twice, condition = restriction',
     'cnf': 'Cnf::eval / is_sat_partial on 7 clause lists (incl. empty list, empty clause, duplicate and complementary literals) x all total and one-hole partial assignments of 3 variables; 300 seeded random PartialModel set/unset sequences; Cnf::condition on the 7 lists x 6 literals and 300 seeded random CNFs over 4 variables (all assignments); Cnf::wmc in FiniteField<1000000007> on the 7 lists x 2 weight vectors and 300 random CNFs/weights against the explicit sum',
     'order': 'VarOrder::new on every permutation of 0..4 variables, each extended 0-2 times with new_last; linear_order / force_order / min_fill_order on 202 CNFs over 1-6 variables: bijection between labels and levels',
-    'compile': 'compile_cnf / collapse_clauses on 8 fixed clause lists x 6 orders and 600 seeded random CNFs; compile_logical_expr / compile_plan on 600 seeded random expressions of depth <= 4 over 3 variables; compile_cnf_with_assignments against compile-then-condition_model (same pointer) on 8 lists x 6 orders x 5 partial assignments and 600 random; BottomUpPlan::from_dtree(DTree::from_cnf) + compile_plan on 600 random CNFs; CompressionSddBuilder compile_cnf / compile_logical_expr / compile_plan under all 12 vtrees over 3 variables (8 fixed lists + 400 random CNFs and expressions) and 4 vtrees over 4 variables (100 random CNFs), evaluated by a structural walk of the SDD',
+    'compile': 'compile_cnf / collapse_clauses on 8 fixed clause lists x 6 orders and 600 seeded random CNFs; compile_logical_expr / compile_plan on 600 seeded random expressions of depth <= 4 over 3 variables; compile_cnf_with_assignments against compile-then-condition_model (same pointer) on 8 lists x 6 orders x 5 partial assignments and 600 random; BottomUpPlan::from_dtree(DTree::from_cnf) + compile_plan on 600 random CNFs; CompressionSddBuilder compile_cnf / compile_logical_expr / compile_plan under all 12 vtrees over 3 variables (8 fixed lists + 400 random CNFs and expressions) and 4 vtrees over 4 variables (100 random CNFs), evaluated by a structural walk of the SDD; SemanticSddBuilder<U64_LARGEST> compile_cnf on the same CNFs (its ite is an explicit todo!(), so no expressions / plans)',
     'dtree': 'DTree::from_cnf + VTree::from_dtree on 10 fixed CNFs with independent components / unused labels and 700 seeded random CNFs over 2-6 variables (half connected through one clause over all variables, half arbitrary) with random elimination orders over 0..largest label: leaves = clauses, vars = union of children, cutset formula, vtree leaves = CNF variables',
+    'hasher': 'CnfHasher new / push / decide / pop / hash: 2 fixed and 600 seeded random histories of 4-15 operations on CNFs with 2-4 variables and 1-5 clauses of <= 3 literals (prime product < 2^128), partial model kept in step with the decisions; every pair of visited states that falsify no clause: equal hash <=> the unsatisfied non-unit clauses restricted to unassigned literals coincide clause by clause',
     'vtree': 'VTreeManager::new / var_index / vtree / lca / is_prime_index / is_prime_var / num_vars on every binary tree shape x every labelling with 1-4 leaves (dense labels 0..n-1) and every shape with 3 seeded labellings for 5 and 6 leaves (303 trees), all pairs of in-order indices, against a direct walk of the shape',
     'poly': 'Polynomial<FiniteField<U32_TINY>>: 403 pairs of polynomials with 0..33 coefficients (seeded random), + and * against the schoolbook definition',
 }
@@ -91,7 +92,7 @@ prop('C08',
      explanation='smooth_helper / smooth carry the postconditions  forall env. ptr_sem(r, env) == ptr_sem(bdd, env)  and  smooth_from(r, 0, n): '
                  'on every path the variables at levels 0..n-1 are tested exactly once, in order; get_or_insert (node creation) is under contract',
      not_covered=[
-         'the counting consequence (weighted count of the smoothed diagram equals the brute-force sum): a statement about fold / bdd_fold, which memoise in RefCell<dyn Any> scratch (C07, not applicable)',
+         'the counting consequence (weighted count of the smoothed diagram equals the brute-force sum): a statement about fold / bdd_fold, which memoise in RefCell<dyn Any> scratch (C07, not applicable) [bounded check `bdd` only: unsmoothed_wmc of diagrams smoothed over all 3 variables, 3 weight vectors]',
          'callers in bin/weighted_model_count.rs and src/ffi/bdd.rs',
      ])
 
@@ -104,7 +105,7 @@ prop('C06',
      explanation='last sentence of the property: DecisionNNFBuilder::cond_helper / TopDownBuilder::condition carry  forall env. ptr_sem(r, env) == ptr_sem(bdd, upd(env, lbl, value))  '
                  'for regular AND complemented pointers of any diagram in which no path decides a variable twice (no ordering assumption); var and the standard store get_or_insert are under contract',
      not_covered=[
-         'exactness of topdown_h / compile_cnf_topdown (false iff unsatisfiable, models = CNF models): conditional on SATSolver (C09, not applicable) and on the 128-bit residual hash identifying residual formulas',
+         'exactness of topdown_h / compile_cnf_topdown (false iff unsatisfiable, models = CNF models, decides once): conditional on SATSolver (C09, not applicable) and on the 128-bit residual hash identifying residual formulas [bounded check `dnnf` only, both node stores]',
          'conjoin_implied: iterates an `impl Iterator<Item = Literal>` (no for-loop support for opaque iterators in Verus)',
          'SemanticDecisionNNFBuilder (semantic-hash node store): C11',
      ])
@@ -116,11 +117,12 @@ prop('C15',
                   'A-bitset: bit_set::BitSet insert/remove/contains behave as a mathematical set of usize (external crate, trusted stub)',
                   'A-lit: in the Verus unit Literal is a two-field stub (label, polarity); the bit packing it stands for is proved on the real code by the Kani harnesses of this same check'],
      replay='cnf',
+     bounded_extra=['hasher'],
      explanation='Cnf::eval == "every clause has a literal true under the assignment" and Cnf::is_sat_partial == "every clause has a literal ASSIGNED true" (empty clause => false, empty list => true), '
                  'by nested loop invariants over the real loops; PartialModel get/set/unset/is_set/lit_implied/lit_neg_implied and VarSet insert/remove/contains against a set view, with the frame '
                  '(other variables unchanged) and the invariant that no variable is in both sets; Literal bit packing by Kani over all u64 x bool',
      not_covered=[
-         'Cnf::new (iterator chains, sort_by_key, dedup) [bounded check `cnf` only]', 'Cnf::condition (labelled continue inside for) [bounded check `cnf` only]', 'CnfHasher (HashSet; primes): the residual-formula hasher clause of the property is NOT decided, not even boundedly',
+         'Cnf::new (iterator chains, sort_by_key, dedup) [bounded check `cnf` only]', 'Cnf::condition (labelled continue inside for) [bounded check `cnf` only]', 'CnfHasher (HashSet; external prime sieve; labelled continue): the residual-formula hasher sentence of the property has a bounded check only (`hasher`)',
          'AssignmentIter::next (fold closure) and Cnf::wmc (brute-force counting) [bounded check `cnf` only; it found the empty-formula defect fixed in 18754bc]',
          'VarSet union/minus/intersect (BitSet iterator adapters)',
      ])
